@@ -21,6 +21,19 @@ type Relay struct {
 	// BlackHole: accept and forward nothing (both directions are swallowed)
 	blackhole int32
 	closed    int32
+	// down: the server behind the relay has been stopped. New connections are ended at once, as after a failed
+	// dial - without dialling, because the port the server has given up may meanwhile belong to a socket of
+	// another test process.
+	down int32
+}
+
+// SetDown tells the relay that nothing listens behind it (any more).
+func (r *Relay) SetDown(on bool) {
+	v := int32(0)
+	if on {
+		v = 1
+	}
+	atomic.StoreInt32(&r.down, v)
 }
 
 // Link is one relayed physical connection.
@@ -60,6 +73,10 @@ func (r *Relay) loop() {
 			return
 		}
 		atomic.AddInt64(&r.Conns, 1)
+		if atomic.LoadInt32(&r.down) != 0 {
+			c.Close()
+			continue
+		}
 		s, err := net.Dial(r.network, r.upstream)
 		if err != nil {
 			c.Close()
